@@ -24,7 +24,7 @@ import numpy as np
 import sympy as sp
 
 from ..core import norm, calls_in, AnalysisError
-from .. import dtypeflow
+from .. import dtypeflow, lints
 from ..symx import SymEval, SymObj, PyStub, Path, Opaque, WouldRaise, ModelError, module_aliases, symarray, is_zero, equal, arr, is_arr
 
 ISO = 'atomman/defect/IsotropicVolterraDislocation.py'
@@ -545,6 +545,14 @@ def dispatch(ctx):
                str(calls)[:300], node=fn, key=tag)
 
 
+def resolve_state(ctx):
+    """solve() may be called again on the same object with another problem: nothing derived from the previous one is kept"""
+    n = 0
+    for rel, cls in ((STR, 'Stroh'), (ISO, 'IsotropicVolterraDislocation'), (VD, 'VolterraDislocation')):
+        n += lints.state_owner(ctx, 'RESOLVE-STATE', rel, cls, ('solve',), 'a second solve() on the same object')
+    ctx.floor('RESOLVE-STATE/methods', n, 30)
+
+
 def float_fields(ctx):
     """strain and stress are assembled component by component in a buffer; the buffer is float for whole-number field points too"""
     dtypeflow.float_buffers(ctx, 'FLOAT-FIELDS', ISO, 'IsotropicVolterraDislocation.strain', floor=9, what='strain components')
@@ -557,4 +565,4 @@ def run(ctx):
                        'handling is evaluated with recording stubs (same rotation for b and C, four input routes, sibling transform, m/n validation, relative round-off); the solver dispatch is evaluated '
                        'with a raising model of the anisotropic solver; the plane-normal construction used by the Miller route is decided as in C16. Not decided: accuracy of the numerical eigen-solution, positive-definiteness, the isotropic limit.')
     from .c16 import plane_normal     # the Miller route (ξ_uvw, slip_hkl) gets its n axis from miller.plane_crystal_to_cartesian
-    ctx.run_rules([isotropic, stroh, frame, dispatch, plane_normal, float_fields])
+    ctx.run_rules([isotropic, stroh, frame, dispatch, plane_normal, float_fields, resolve_state])
